@@ -13,6 +13,7 @@ export const SIGMA = [
 ];
 export const POSITIONS = ['only', 'beforeExpr', 'afterExpr', 'betweenExpr', 'betweenEl'];
 const HOSTS = ['b', 'fragShort', 'Fragment', 'KeepAlive', 'custom', 'customUpper', 'customUnderscore'];
+const CONTENT_HOSTS = ['divHtml', 'divInnerHTML', 'pText'];
 
 function* strings(maxLen) {
   // all sequences over SIGMA of length 1..maxLen
@@ -37,6 +38,8 @@ function hostTag(b, host) {
     case 'custom': return { kind: 'maybeCustom', name: 'x-el', src: 'x-el' };
     case 'customUpper': return { kind: 'maybeCustom', name: 'X-Panel', src: 'X-Panel' };
     case 'customUnderscore': return { kind: 'maybeCustom', name: '_widget', src: '_widget' };
+    case 'divHtml': case 'divInnerHTML': return { kind: 'html', name: 'div', src: 'div' };
+    case 'pText': return { kind: 'html', name: 'p', src: 'p' };
     default: throw new Error(host);
   }
 }
@@ -152,7 +155,11 @@ export function* generate({ tier, seed }) {
       if (c.t === 'text' && last && last.t === 'text') children[children.length - 1] = C.text(last.raw + c.raw, last.decoded + c.decoded);
       else children.push(c);
     }
-    const el = { tag, attrs: [], children };
+    // hosts whose content Vue overwrites at run time (v-html / v-text / innerHTML) still receive their written children
+    const attrs = [];
+    if (host === 'divHtml' || host === 'pText') { const g = b.global({ k: 'str', v: 'H' }); attrs.push({ t: host === 'divHtml' ? 'html' : 'textc', den: { value: { k: 'leaf', i: b.leaf(g) } }, src: `${host === 'divHtml' ? 'v-html' : 'v-text'}={${g}}`, kind: 'html' }); }
+    if (host === 'divInnerHTML') { const g = b.global({ k: 'str', v: 'H' }); attrs.push(A.attr('innerHTML', { k: 'leaf', i: b.leaf(g), src: g })); }
+    const el = { tag, attrs, children };
     b.addThunk('t0', renderElement(el));
     return {
       gid: `C02-child-${n++}`, src: b.source(), syntax: 'jsx',
@@ -161,7 +168,8 @@ export function* generate({ tier, seed }) {
     };
   };
   const exLen = tier === 'quick' ? 3 : 4;
-  for (const host of HOSTS) for (const seq of childSeqs(CHILD_KINDS, exLen)) {
+  for (const host of [...HOSTS, ...CONTENT_HOSTS]) for (const seq of childSeqs(CHILD_KINDS, exLen)) {
+    if (CONTENT_HOSTS.includes(host) && seq.length > 2) continue;
     if (tier === 'quick' && host !== 'b' && seq.length === 3 && rng.bool(0.7)) continue;
     yield emitChildCase(host, seq);
   }
@@ -170,7 +178,7 @@ export function* generate({ tier, seed }) {
     const len = 3 + rng.int(6);
     const kinds = [];
     for (let j = 0; j < len; j++) kinds.push(rng.pick(CHILD_KINDS));
-    yield emitChildCase(rng.pick(HOSTS), kinds);
+    yield emitChildCase(rng.bool(0.1) ? rng.pick(CONTENT_HOSTS) : rng.pick(HOSTS), kinds);
   }
 }
 
